@@ -102,6 +102,8 @@ func gzipMembers(b []byte) ([]gzMember, error) {
 
 type tarEntry struct {
 	Name  string
+	ATime int64 // PAX/GNU access time, 0 when absent
+	CTime int64 // PAX/GNU change time, 0 when absent
 	MTime int64
 	Data  []byte
 	Type  byte
@@ -128,7 +130,14 @@ func readTar(b []byte) ([]tarEntry, error) {
 		if !h.ModTime.IsZero() {
 			mt = h.ModTime.Unix()
 		}
-		out = append(out, tarEntry{Name: h.Name, MTime: mt, Data: data, Type: h.Typeflag})
+		e := tarEntry{Name: h.Name, MTime: mt, Data: data, Type: h.Typeflag}
+		if !h.AccessTime.IsZero() {
+			e.ATime = h.AccessTime.Unix()
+		}
+		if !h.ChangeTime.IsZero() {
+			e.CTime = h.ChangeTime.Unix()
+		}
+		out = append(out, e)
 	}
 }
 
@@ -181,6 +190,12 @@ func tarStamps(prefix string, b []byte) ([]Stamp, []tarEntry, error) {
 	for _, e := range es {
 		// PAX global/extended headers are consumed by the reader
 		st = append(st, Stamp{Where: prefix + ":" + e.Name, T: e.MTime})
+		if e.ATime != 0 {
+			st = append(st, Stamp{Where: prefix + ":" + e.Name + " (atime)", T: e.ATime})
+		}
+		if e.CTime != 0 {
+			st = append(st, Stamp{Where: prefix + ":" + e.Name + " (ctime)", T: e.CTime})
+		}
 		if strings.HasSuffix(e.Name, ".gz") && len(e.Data) > 10 && e.Data[0] == 0x1f && e.Data[1] == 0x8b {
 			if ms, err := gzipMembers(e.Data); err == nil {
 				for i, m := range ms {
